@@ -339,6 +339,8 @@ def gen_sequence(rng, maxlen=8, malformed=False):
                     w = w + [None]
                     op = {'op': 'pad', 'a': a, 'w': w}
                     raise Expect('AssertionError')
+                if any(x is not None and n + x[0] + x[1] > 6 for x, n in zip(w, slots[a]['D'].shape)):
+                    continue
                 op = {'op': 'pad', 'a': a, 'w': w}
                 D = np.pad(slots[a]['D'], [(0, 0) if x is None else tuple(x) for x in w], 'constant')
                 exp = ('ok', D, slots[a]['fmt'])
@@ -390,7 +392,7 @@ def gen_sequence(rng, maxlen=8, malformed=False):
             continue
         ops.append(op)
         exps.append(exp)
-        if exp[0] == 'ok' and exp[2] != 'scal' and not isinstance(exp[1], float):
+        if exp[0] == 'ok' and exp[2] != 'scal' and not isinstance(exp[1], float) and op['op'] != 'from_terms':
             slots.append({'fmt': exp[2], 'D': np.asarray(exp[1], dtype=float)})
         else:
             slots.append(None)     # errors, scalars and truncations are not reused
